@@ -57,7 +57,10 @@ def r1(ctx):
     ctx.check(ok, "C06.R1", prs, "parse slices payload[:k] / payload[k:] with k == calcsize == FRAGMENT_OVERHEAD",
               "the reader removes exactly the bytes the writer prepended", witness={"slices": slices, "k": k, "FRAGMENT_OVERHEAD": cap.FRAG_OVERHEAD}, line=u.lineno)
     # field order: pack(frag_id, 1+index, count)  vs  frag_id, index, count = unpack ; return frag_id, index, count, msg
-    pargs = [norm(a) for a in pk.args]
+    # (arguments read through temporaries: count = len(self.fragments))
+    from .common import sym_text as _sxp
+    from engine.cfg import cfg_of as _cfgp
+    pargs = [_sxp(bld, a, _cfgp(bld).node_of(pk.call), allow_calls=("len",)) for a in pk.args]
     tg = u.call._parent.targets[0] if isinstance(u.call._parent, ast.Assign) else None
     uargs = [norm(e) for e in tg.elts] if isinstance(tg, ast.Tuple) else []
     rets = [n for n in walk_own(prs.node) if isinstance(n, ast.Return)]
